@@ -81,6 +81,7 @@ func mutations(rg *rng, version int, frame []byte) [][]byte {
 }
 
 func genC04(e *emitter, tier string, seed uint64) map[string]interface{} {
+	defer flushUnstable(e, "C04")
 	rg := &rng{seed ^ 0x04}
 	thorough := tier == "thorough"
 	maxAlloc := uint64(0)
@@ -230,7 +231,16 @@ func genC04(e *emitter, tier string, seed uint64) map[string]interface{} {
 				ce := &control.Error{Code: uint64(1 + rg.intn(100000)), Msg: []string{"denied", "boom", "x y z"}[rg.intn(3)]}
 				if codec == protocol.CodecJSON {
 					body, _ = json.Marshal(ce)
-					body = append(body, []byte{'}', ',', 'x'}[rg.intn(3)])
+					switch rg.intn(6) {
+					case 0, 1, 2:
+						body = append(body, []byte{'}', ',', 'x'}[rg.intn(3)])
+					case 3: // an extra member (decodable), another member case (decodable), the code as text (not decodable) — the oracle below is encoding/json
+						body = []byte(fmt.Sprintf(`{"code":%d,"trace_id":"t-1","msg":%q}`, ce.Code, ce.Msg))
+					case 4:
+						body = []byte(fmt.Sprintf(`{"Code":%d,"MSG":%q}`, ce.Code, ce.Msg))
+					default:
+						body = []byte(fmt.Sprintf(`{"code":"%d","msg":%q}`, ce.Code, ce.Msg))
+					}
 				} else {
 					body, _ = pb.Marshal(ce)
 					switch rg.intn(3) {
